@@ -41,6 +41,13 @@ func c03Build(s string) (*url.URL, error) {
 			return &url.URL{Scheme: "http", Host: "a.example", Path: "/a", ForceQuery: true}, nil
 		case "opaque":
 			return &url.URL{Scheme: parts[2], Opaque: "//a.example/a"}, nil
+		case "opaqueh": // opaque request target sent to the host named here, with a query
+			hq := strings.SplitN(parts[2], "?", 2)
+			u := &url.URL{Scheme: "http", Host: hq[0], Opaque: "//a.example/a"}
+			if len(hq) == 2 {
+				u.RawQuery = hq[1]
+			}
+			return u, nil
 		case "space":
 			return &url.URL{Scheme: "http", Host: "a.example", Path: "/a b"}, nil
 		case "pathchar": // a literal character in Path, encoded by net/url as it sees fit
@@ -102,6 +109,9 @@ func c03Grid() []string {
 	}
 	out = append(out, "http://a.example/p?k=%", "http://a.example/p?k=%4", "http://a.example/p?k=%%34", "http://a.example/p?k=%%341", "http://a.example/p?k=100%&x=1", "http://a.example/p?k=100q=1", "http://a.example/p?k=%zz", "http://a.example/p?k=3")
 	out = append(out, "struct:rawpath:", "struct:forcequery:", "struct:opaque:http", "struct:opaque:https", "struct:space:", "struct:upperhost:")
+	out = append(out, "struct:opaqueh:a.example", "struct:opaqueh:b.example", "struct:opaqueh:A.EXAMPLE", "struct:opaqueh:a.example?user=1", "struct:opaqueh:a.example?user=2", "struct:opaqueh:b.example?user=1")
+	// IPv6 literals with a zone
+	out = append(out, "http://[fe80::1%25eth0]/a", "http://[fe80::1%25eth0]/a/../a", "http://[FE80::1%25eth0]:80/%61#x", "http://[fe80::1%25eth1]/a", "http://[fe80::2%25eth0]/a", "http://[fe80::1%25eth0]:8080/a", "http://[fe80::1%25eth0]/b")
 	// drop what Go cannot parse / build a request for
 	var ok []string
 	seen := map[string]bool{}
@@ -121,7 +131,7 @@ func c03Grid() []string {
 
 func c03Random(r *rand.Rand) string {
 	if chance(r, 0.03) {
-		return pick(r, []string{"struct:rawpath:", "struct:forcequery:", "struct:opaque:http", "struct:opaque:https", "struct:space:", "struct:upperhost:"})
+		return pick(r, []string{"struct:rawpath:", "struct:forcequery:", "struct:opaque:http", "struct:opaque:https", "struct:space:", "struct:upperhost:", "struct:opaqueh:a.example", "struct:opaqueh:b.example", "struct:opaqueh:a.example?user=1", "struct:opaqueh:a.example?user=2"})
 	}
 	s := pick(r, c03Schemes) + "://"
 	if chance(r, 0.1) {
@@ -189,15 +199,18 @@ func TestC03Bulk(t *testing.T) {
 	}
 	if !r.Thorough() {
 		// quick: the ASCII escape family and the host/port family, each in one cache
-		var fam, hp []string
+		var fam, hp, st []string
 		for _, u := range grid {
 			if strings.HasPrefix(u, "http://a.example/p") || strings.HasPrefix(u, "struct:pathchar") {
 				fam = append(fam, u)
 			} else if !strings.HasPrefix(u, "http://a.example") && !strings.HasPrefix(u, "struct:") {
 				hp = append(hp, u)
+			} else if strings.HasPrefix(u, "struct:") {
+				st = append(st, u) // hand-built URL values (opaque forms, ...)
 			}
 		}
-		cases = append(cases, c03Case{URLs: fam}, c03Case{URLs: hp})
+		st = append(st, "http://a.example/a", "https://a.example/a", "http://b.example/a", "http://a.example/a?user=1")
+		cases = append(cases, c03Case{URLs: fam}, c03Case{URLs: hp}, c03Case{URLs: st})
 	}
 	base := len(cases)
 	for i := 0; i < nsets; i++ {
